@@ -225,8 +225,51 @@ pub fn run(tier: Tier, replay: Option<Value>) -> ! {
         rep.set("heredoc_cases", scripts.len() as u64);
         rep.sample(json!({"heredoc": scripts[scripts.len() / 2]}));
     }
+    // ------------------------------------------------------------------ (C) here-strings
+    if replay.is_none() {
+        // the word is expanded like an assignment's right-hand side (no splitting, no globbing) and ONE newline
+        // is appended, whatever the word ends in
+        let words: &[(&str, &str)] = &[
+            ("plain", "a"), ("two-words-dq", "\"a  b\""), ("var", "$x"), ("var-dq", "\"$x\""), ("ansi-c-trailing-newline", "$'a\\n'"), ("var-trailing-newline", "\"$nl\""),
+            ("var-trailing-newline-unquoted", "$nl"), ("empty", "''"), ("only-newline", "$'\\n'"), ("two-newlines", "$'a\\n\\n'"), ("cmdsub", "\"$(echo c; echo)\""), ("glob", "*"), ("tilde", "~"),
+            ("brace", "{1,2}"), ("blanks-var", "$sp"), ("backslash", "a\\ b"), ("multi-piece", "a\"$nl\"b$'\\n'"),
+        ];
+        let consumers: &[(&str, &str)] = &[
+            ("external", "vcat <<<W | vcons"),
+            ("external-bytes", "vcat <<<W; echo '|'"),
+            ("read-lines", "n=0; while IFS= read -r l; do n=$((n+1)); done <<<W; echo \"lines=$n last=[$l]\""),
+            ("function", "hf() { vcat; }; hf <<<W; echo '|'"),
+            ("group", "{ vcat; } <<<W; echo '|'"),
+            ("fd3", "vcat <&3 3<<<W; echo '|'"),
+            ("two", "vcat <<<W <<<\"second\"; echo '|'"),
+        ];
+        let mut hs: Vec<(String, Vec<String>)> = vec![];
+        for (wn, w) in words {
+            for (cn, c) in consumers {
+                hs.push((format!("HOME=/vhome; x='v w'; nl=$'q\\n'; sp='  s  '\n{}\necho \"end=$?\"\n", c.replace('W', w)), vec!["herestring".to_string(), format!("word:{wn}"), format!("consumer:{cn}")]));
+            }
+        }
+        let scripts: Vec<String> = hs.iter().map(|h| h.0.clone()).collect();
+        let jb: Vec<Value> = scripts.iter().map(|s| json!({"s": format!("set -f\n{s}"), "mode": "file"})).collect();
+        let bb = common::run_scripts(&jb, 20_000);
+        let ob = bash::run_files(bash::BASH, &scripts.iter().map(|s| format!("set -f\n{s}")).collect::<Vec<_>>(), 20_000);
+        for i in 0..scripts.len() {
+            rep.evaluations += 1;
+            if ob[i].timed_out {
+                continue;
+            }
+            let want = format!("{}status={}", ob[i].out_str(), ob[i].status);
+            let got = bb[i].crash.clone().map(|c| format!("CRASH {c}")).unwrap_or_else(|| format!("{}status={}", bb[i].out, bb[i].status));
+            rep.observe(&got);
+            rep.nontrivial.insert(format!("S{}", i));
+            if got != want {
+                rep.fail(Failure { case: scripts[i].clone(), tags: hs[i].1.clone(), expected: want, observed: got, oracle: "bash".into() });
+            }
+        }
+        rep.set("herestring_cases", scripts.len() as u64);
+    }
     rep.rule = format!(
-        "(A) all redirection lists of <= {} items over {:?} attached to {} command kinds (builtin, external, function, group, subshell, loop, eval) with pre-existing files f, g and fd 9, with/without noclobber; (B) all here-document bodies of <= {} lines over {:?} x 5 delimiter forms x <</<<- x 6 placements (incl. two documents on one line with the same and with different operators); distinct = tag set of the case",
+        "(A) all redirection lists of <= {} items over {:?} attached to {} command kinds (builtin, external, function, group, subshell, loop, eval) with pre-existing files f, g and fd 9, with/without noclobber; (B) all here-document bodies of <= {} lines over {:?} x 5 delimiter forms x <</<<- x 6 placements (incl. two documents on one line with the same and with different operators); (C) here-strings: 17 words (trailing newlines, blanks, glob/tilde/brace characters, substitutions) x 7 consumers; distinct = tag set of the case",
         tier.pick(2, 3),
         ITEMS,
         KINDS.len(),
